@@ -226,6 +226,10 @@ def _reaches_unfreshened(f, d, name, rn):
     return g.can_reach(d.node, rn, avoid_nodes=[o for o in others if o is not d.node], avoid_edges=avoid_edges)
 
 
+_OBJECT_MUTATORS = {'setdefault', 'update', 'append', 'extend', 'add', 'insert', 'pop', 'popitem', 'clear', 'remove', 'discard', 'sort', 'reverse',
+                    'set_cookie', 'delete_cookie', 'add_header', 'set_header', '__setitem__', '__delitem__'}
+
+
 def check_error_objects_read_only(P, R, rid):
     """the error / response object an application method was handed (possibly one of the shared errors_map instances) is only read:
     no attribute or item store goes through a parameter of the request-path methods of Ombott"""
@@ -236,6 +240,24 @@ def check_error_objects_read_only(P, R, rid):
         if m is None or isinstance(m.node, ast.Lambda):
             continue
         for st in walk_shallow(m.node):
+            if isinstance(st, ast.Call) and isinstance(st.func, ast.Attribute) and st.func.attr in _OBJECT_MUTATORS:
+                # a mutator called on (something inside) a caught / received object: `resp._headers.setdefault(..)`, `err.headers.update(..)`, `err.set_cookie(..)`
+                b = st.func.value
+                depth_ = 0
+                while isinstance(b, (ast.Attribute, ast.Subscript)):
+                    b = b.value
+                    depth_ += 1
+                ns = m.cfg.node_of_stmt(st)
+                if isinstance(b, ast.Name) and ns:
+                    defs_ = m.rd.at(ns[0], b.id)
+                    caught_ = bool(defs_) and all(d.kind == 'except' for d in defs_) and b.id not in m.params
+                    given_ = b.id in m.params[1:] and b.id != 'environ' and bool(defs_) and all(d.kind == 'param' for d in defs_)
+                    if (caught_ or given_) and (depth_ >= 1 or st.func.attr in ('set_cookie', 'delete_cookie', 'add_header', 'set_header', '__setitem__')):
+                        n_ += 1
+                        R.ob(rid, m, st, False, detail=
+                             f'`{short(st)}` changes the {"caught" if caught_ else "received"} object `{b.id}`: the request parsers raise the single instances kept in '
+                             f'config.errors_map, so what one request puts there (a request id, a CORS header) is sent with the mapped error responses of all later requests',
+                             why='nothing set while serving an earlier request may appear in a later response', key_extra=f'{name}:mutates:{b.id}')
             tg = st.targets if isinstance(st, ast.Assign) else ([st.target] if isinstance(st, ast.AugAssign) else [])
             for t in tg:
                 b = t
